@@ -92,6 +92,9 @@ func init() {
 }
 
 func runC13(c *report.Ctx) {
+	checkNoServerTimeouts(c)
+	checkValidationCoversEveryEvent(c)
+	checkAgentMapsCleared(c)
 	checkErrorIdentity(c, scopeAgentHandlers, nil, 3)
 	c.Clause("1 automata")
 	for _, spec := range []fsmSpec{externalFSM(), internalFSM()} {
